@@ -167,7 +167,8 @@ def partName (pre label suf chr : String) : String := pre ++ label ++ "_" ++ chr
 structure WState where
   assignCtr : Nat := 0            -- ReadAssignment.assignment_id_generator.value
   featCtr : Nat := 0              -- FeatureInfo.feature_id_counter.value
-  detected : List String := []    -- GraphBasedModelConstructor.detected_known_isoforms
+  detected : List String := []    -- GraphBasedModelConstructor.detected_known_isoforms (and, since fix b2b4dd9,
+                                  -- .reported_novel_chains: same reset and filter mechanics, disjoint key space)
   dupCtr : Nat := 0               -- MultimapResolver.duplicate_counter (parent process only)
   deriving Repr, DecidableEq
 
